@@ -445,6 +445,21 @@ def run_check(prop_cls, tier, seed, replay=None):
     have_driver = os.path.exists(DRIVER_BIN)
     if not have_driver:
         broken.append('driver binary unavailable: correspondence not run')
+    # the recorded inputs of the listed findings go first, so that every listed finding is exercised on every run
+    if not replay:
+        for k in known_keys.values():
+            inp = k.get('input')
+            if not isinstance(inp, dict):
+                continue
+            try:
+                prop.prepare([inp])
+                fs = prop.oracle(inp)
+                evaluations += 1
+                failures.extend(fs)
+                if not any(f.key == k['key'] for f in fs):
+                    notes.append('listed finding %s: its recorded input no longer fails' % k['key'])
+            except Exception as e:   # noqa  (a recorded input in an older case format)
+                notes.append('listed finding %s: recorded input not usable (%r)' % (k['key'], e))
     run_batch(cases, do_model=have_driver)
     try:
         failures.extend(prop.finish(cases) or [])
